@@ -30,7 +30,7 @@ int16_t COPdoReceive(CO_IF_FRM *frm) { return 0; }
 void COPdoSyncUpdate(CO_RPDO *pdo) { }
 void CORpdoWriteData(CO_IF_FRM *frm, uint8_t pos, uint8_t size, CO_OBJ *obj) { }
 void COTpdoReadData(CO_IF_FRM *frm, uint8_t pos, uint8_t size, CO_OBJ *obj) { }
-uint8_t H_PN, G_T, G_R, H_MSG, H_TXT; _Bool H_ST[CO_TPDO_N], H_SR[CO_RPDO_N];
+uint8_t H_PN, G_T, G_R, H_MSG, H_TXT; uint8_t H_LNK[CO_TPDO_N * 8]; uint32_t G_L, G_M; _Bool H_ST[CO_TPDO_N], H_SR[CO_RPDO_N];
 #define S (V_NODE.Sync)
 #define P (V_NODE.TPdo[H_PN])
 #define R (V_NODE.RPdo[H_PN])
@@ -54,7 +54,16 @@ void harness(void)
         __CPROVER_assume(H_SR[k] == ((V_NODE.RPdo[k].Flag & CO_RPDO_FLG_S_) != 0) && V_NODE.RPdo[k].ObjNum <= 8);
         for (int on = 0; on < 8; on++) { V_NODE.RPdo[k].Map[on] = 0; }
     }
+#if VW_OP == 2
+    /* object-to-TPDO link table: ANY content (free slots, links of this and of other TPDOs to any object); the links of the
+     * OTHER TPDOs occupy at most 8 slots per TPDO (representation invariant, re-established below for the TPDO in hand) */
+    uint32_t others = 0;
+    for (int n = 0; n < CO_TPDO_N * 8; n++) { V_NODE.TMap[n].Obj = (H_LNK[n] & 7) == 0 ? (CO_OBJ *)0 : &V_POBJ[H_LNK[n] & 3]; if (V_NODE.TMap[n].Obj != 0 && V_NODE.TMap[n].Num != H_PN) { others++; } }
+    __CPROVER_assume(others <= 8u * (CO_TPDO_N - 1) && G_L < CO_TPDO_N * 8u);
+    CO_TPDO_LINK l0 = V_NODE.TMap[G_L];
+#else
     for (int n = 0; n < CO_TPDO_N * 8; n++) { V_NODE.TMap[n].Obj = 0; }
+#endif
     CO_SYNC s0 = S; CO_TPDO t0 = V_NODE.TPdo[G_T]; CO_RPDO r0 = V_NODE.RPdo[G_R]; CO_TPDO p0 = P; CO_RPDO q0 = R;
     N_TDEL = N_TCRE = 0; V_NODE.Error = CO_ERR_NONE;
 #if VW_OP == 0 || VW_OP == 1
@@ -79,6 +88,7 @@ void harness(void)
     __CPROVER_assert(SR_SAME(G_R) && RF_SAME(G_R) && RP_SAME(G_R), "frame: re-activating a TPDO leaves every RPDO, the RPDO SYNC table and the buffered RPDO frames alone");
     __CPROVER_assert(G_T == H_PN || (ST_SAME(G_T) && TP_SAME(G_T)), "frame: no other TPDO and no other TPDO slot of the SYNC table changes");
     __CPROVER_assert(S.CobId == s0.CobId && S.Time == s0.Time && S.Tmr == s0.Tmr && S.Cycle == s0.Cycle, "frame: SYNC settings untouched");
+    __CPROVER_assert((l0.Obj != 0 && l0.Num != H_PN) ==> (V_NODE.TMap[G_L].Obj == l0.Obj && V_NODE.TMap[G_L].Num == l0.Num), "frame: the links of every other TPDO stay as they are");
     __CPROVER_assert(N_TDEL == (uint32_t)(p0.EvTmr >= 0) + (uint32_t)(p0.InTmr >= 0) && (p0.EvTmr < 0 || D_ID[0] == p0.EvTmr) && (p0.InTmr < 0 || D_ID[p0.EvTmr >= 0 ? 1 : 0] == p0.InTmr) && P.InTmr == -1, "the old event and inhibit timers of the TPDO are deleted, and only those");
     __CPROVER_assert(((P.Flags & CO_TPDO_FLG_S__) != 0) == (S.TPdo[H_PN] != 0) && (S.TPdo[H_PN] == 0 || S.TPdo[H_PN] == &P) && (P.Flags & CO_TPDO_FLG__IE) == 0, "WF_SYNC is kept: in the SYNC table iff synchronous; inhibit / pending-event flags are cleared");
     __CPROVER_assert(N_TCRE <= 1 && ((N_TCRE == 1) ? (P.EvTmr == H_TID && C_START == P.Event + H_PN && C_CYCLE == 0 && C_FUNC == &COTPdoTmrEvent && C_PARA == (void *)&P && P.Event > 0) : P.EvTmr == -1), "the event timer is owned iff it was created for this TPDO");
@@ -89,6 +99,13 @@ void harness(void)
         __CPROVER_assert(((P.Flags & CO_TPDO_FLG_S__) != 0) == sync && (!sync || (S.TNum[H_PN] == H_TYPE && S.TSync[H_PN] == 0)), "synchronous (types 0..240) iff valid and so configured; SYNC count restarted with the configured type");
         __CPROVER_assert(P.Event == (evt == 0 ? 0 : H_TK_EVT) && (evt == 0 || A_EVT == evt) && (N_TCRE == 1) == (P.Event > 0), "event timer: running iff type 254/255 and 18xxh:5 != 0, with that time");
         __CPROVER_assert(P.Inhibit == ((H_INH_OK && H_INHT != 0) ? H_TK_INH : 0), "inhibit time of 18xxh:3");
+        /* the link table after a (re)activation: TPDO #n is linked to exactly the objects of its activated mapping */
+        _Bool in_map = 0, linked = 0; uint32_t mine = 0;
+        for (int on = 0; on < 8; on++) { if (on < P.ObjNum && P.Map[on] == V_NODE.TMap[G_L].Obj) { in_map = 1; } }
+        for (int n = 0; n < CO_TPDO_N * 8; n++) { if (V_NODE.TMap[n].Obj != 0 && V_NODE.TMap[n].Num == H_PN) { mine++; if (G_M < P.ObjNum && V_NODE.TMap[n].Obj == P.Map[G_M & 7]) { linked = 1; } } }
+        __CPROVER_assert((V_NODE.TMap[G_L].Obj != 0 && V_NODE.TMap[G_L].Num == H_PN) ==> in_map, "link table: no link of an earlier activation survives - every link of the TPDO names an object of its current mapping");
+        __CPROVER_assert(G_M < P.ObjNum ==> linked, "link table: every object of the activated mapping is linked to the TPDO (its changes trigger the TPDO: no trigger lost)");
+        __CPROVER_assert(mine <= 8, "link table: at most 8 links per TPDO (so the table of 8 * CO_TPDO_N slots never runs full)");
         if (sync) { __CPROVER_assert(0, "REACH:a"); }
         if (N_TCRE == 1) { __CPROVER_assert(0, "REACH:b"); }
     }
